@@ -27,7 +27,9 @@ int main(int argc, char **argv) {
             // identity-result errors are public by the property: these functions branch on "result is the identity" at the end
             if (nm.find("scalarmult_ed25519") != std::string::npos || nm.find("scalarmult_ristretto255") != std::string::npos) continue;
             // sodium_pad is not in the property's list; memcheck's approximate carry tracking cannot see that only the in-block offset is secret
-            if (nm == "sodium_pad") continue;
+            if (nm.compare(0, 10, "sodium_pad") == 0) continue;
+            { size_t colon = kind.find(':'); if (colon != std::string::npos) kind = kind.substr(0, colon); }       // "padpos:24": same preparation, the operation itself carries the block size
+            if (kind == "padpos" && nm != "sodium_unpad") continue;                                                 // the preparation below places the marker for 16-byte blocks only
             if (!only.empty() && nm != only) continue;
             if (op.needs_aesni && !(sodium_runtime_has_aesni() && sodium_runtime_has_avx() && sodium_runtime_has_pclmul())) continue;
             for (size_t pl : PL) {
